@@ -96,8 +96,8 @@ func configsFor(part string, thorough bool) []*xcfg {
 		}
 	case "c06":
 		return []*xcfg{
-			{Name: "warm-reads-bfs", Voters: v3, Fifo: true, WarmLeader: true, MaxTerm: 3, MaxIndex: 5, Reads: 2, Timeouts: 1, Proposals: 1, Dups: pick(0, 1)},
-			{Name: "warm-reads-net", Voters: v3, Fifo: true, WarmLeader: true, MaxTerm: 3, MaxIndex: 5, Reads: 2, Heartbeats: 1, Dups: 1, Reorders: 1, Drops: 1},
+			{Name: "warm-reads-bfs", Voters: v3, Fifo: true, WarmLeader: true, MaxTerm: 3, MaxIndex: 5, Reads: 2, Timeouts: 1, Proposals: 1, Dups: pick(0, 1), MaxDepth: pick(9, 0)},
+			{Name: "warm-reads-net", Voters: v3, Fifo: true, WarmLeader: true, MaxTerm: 3, MaxIndex: 5, Reads: 2, Heartbeats: 1, Dups: 1, Reorders: 1, Drops: 1, MaxDepth: pick(9, 0)},
 			{Name: "reads-deposed-dev", Voters: v3, Fifo: true, MaxDev: pick(2, 3), MaxTerm: 6, MaxIndex: 9, Reads: 1, Timeouts: pick(1, 2), Proposals: pick(0, 1), Heartbeats: 1, Dups: 1, Reorders: 1, Drops: 2,
 				Script: []string{"T1", "H1", "P1", "R1", "H1", "R2", "P2", "R3", "H1"}},
 			{Name: "reads-partitioned-old-leader-dev", Voters: v3, NonVotings: []uint64{4}, Fifo: true, MaxDev: pick(2, 3), MaxTerm: 6, MaxIndex: 10, Reads: 1, Partitions: 2, Heartbeats: 1, Dups: 1, Timeouts: 1,
@@ -112,7 +112,7 @@ func configsFor(part string, thorough bool) []*xcfg {
 	case "c07":
 		return []*xcfg{
 			{Name: "cc-bfs", Voters: v3, Joiners: []uint64{4}, Fifo: true, LazyApply: true, WarmLeader: true, MaxTerm: 3, MaxIndex: 5, ConfChanges: 2, Timeouts: 1,
-				CCMenu: ccMenu[:3]},
+				CCMenu: ccMenu[:3], MaxDepth: pick(10, 0)},
 			{Name: "cc-add-dev", Voters: v3, Joiners: []uint64{4}, Fifo: true, LazyApply: true, MaxDev: pick(2, 3), MaxTerm: 6, MaxIndex: 10, ConfChanges: 1, Timeouts: 2, Crashes: 1, Drops: 2, Proposals: 1,
 				CCMenu: ccMenu, Script: []string{"T1", "H1", "C1:0", "H1", "J4", "P1", "H1", "H1"}},
 			{Name: "cc-remove-leader-dev", Voters: v3, Fifo: true, LazyApply: true, MaxDev: pick(2, 3), MaxTerm: 6, MaxIndex: 10, ConfChanges: 1, Timeouts: 2, Crashes: 1, Drops: 2, Proposals: 1,
@@ -148,8 +148,8 @@ func configsFor(part string, thorough bool) []*xcfg {
 		}
 	case "c18":
 		return []*xcfg{
-			{Name: "2v+w-bfs", Voters: []uint64{1, 2}, Witnesses: []uint64{3}, Fifo: true, MaxTerm: 3, MaxIndex: 5, Timeouts: 2, Proposals: 2, Drops: 1},
-			{Name: "2v+nv-bfs", Voters: []uint64{1, 2}, NonVotings: []uint64{3}, Fifo: true, MaxTerm: 3, MaxIndex: 5, Timeouts: 2, Proposals: 2, Reads: 1, Drops: 1},
+			{Name: "2v+w-bfs", Voters: []uint64{1, 2}, Witnesses: []uint64{3}, Fifo: true, MaxTerm: 3, MaxIndex: 5, Timeouts: 2, Proposals: 2, Drops: 1, MaxDepth: pick(14, 0)},
+			{Name: "2v+nv-bfs", Voters: []uint64{1, 2}, NonVotings: []uint64{3}, Fifo: true, MaxTerm: 3, MaxIndex: 5, Timeouts: 2, Proposals: 2, Reads: 1, Drops: 1, MaxDepth: pick(12, 0)},
 			{Name: "3v+nv-promote-dev", Voters: v3, NonVotings: []uint64{4}, Fifo: true, LazyApply: true, MaxDev: pick(2, 3), MaxTerm: 6, MaxIndex: 10, ConfChanges: pick(0, 1), Timeouts: pick(1, 2), Drops: pick(1, 2), Proposals: pick(0, 1), Crashes: pick(0, 1),
 				CCMenu: ccMenu, Script: []string{"T1", "H1", "P1", "C1:0", "H1", "H1", "P4", "H1"}},
 			{Name: "2v+w+nv-dev", Voters: []uint64{1, 2}, Witnesses: []uint64{3}, NonVotings: []uint64{4}, Fifo: true, MaxDev: pick(2, 3), MaxTerm: 6, MaxIndex: 10, Timeouts: 2, Drops: 3, Proposals: 2, Snapshots: 1, Crashes: 1, Reads: 1, Reports: 1,
